@@ -624,7 +624,7 @@ def run(ctx):
         leaf_ids = range(nl) if ei < 2 or not quick else rng.sample(range(nl), 6)
         for i in leaf_ids:
             L = ("L", i)
-            for pad in [0, 1, (1, 2), (0, 1, 2, 3), (2, 0, 1, 0)]:
+            for pad in [0, 1, (1, 2), (0, 1, 2, 3), (2, 0, 1, 0), (0, 0, 0, 2)]:
                 for ex in (True, False):
                     exprs.append(("PAD", pad, ex, L))
             for al in ("left", "center", "right"):
